@@ -10,7 +10,11 @@ mod c03;
 mod c04;
 mod c10;
 mod c14;
+mod c14_glue;
 mod c08;
+mod c08_compose;
+mod c08_report;
+mod c09_e2e;
 mod c13;
 mod c11;
 mod c12;
@@ -27,7 +31,9 @@ fn main() {
         std::process::exit(2);
     }
     let args = util::Args::parse(&argv[2..]);
-    util::silence_panics();
+    if std::env::var_os("VERIF_SHOW_PANICS").is_none() {
+        util::silence_panics();
+    }
     match argv[1].as_str() {
         "c01" => c01::main(&args),
         "c05" => c05::main(&args),
